@@ -183,94 +183,7 @@ func checkC09(c *Ctx) {
 	}
 
 	// ---- C09.empty ----
-	re := c.Rule("C09.empty", "every WHERE clause added from user conditions or model keys is guarded by non-emptiness / non-zero key; BuildCondition yields nothing for empty input", 14)
-	re.Exempt("gorm.(*DB).Clauses", "passes only clause.Expression values; BuildCondition keeps every non-nil one, and an explicit empty clause.Where from the caller is the caller's statement")
-	re.Exempt("gorm.(SoftDeleteQueryClause).ModifyStatement", "the soft-delete filter is a one-element literal by construction; it is excluded from the guard's count through the marker (C09.marker)")
-	stmtT := p.Named(pkgGorm, "Statement")
-	addClause := p.Method(stmtT, "AddClause")
-	whereT := p.Named(pkgClause, "Where")
-	for _, f := range p.FuncsOf(pkgGorm, pkgCallbacks) {
-		info := f.Pkg.TypesInfo
-		for _, call := range callsIn(f) {
-			fn, _ := typeutil.Callee(info, call).(*types.Func)
-			if fn != addClause || len(call.Args) != 1 {
-				continue
-			}
-			lit, ok := unparen(call.Args[0]).(*ast.CompositeLit)
-			if !ok {
-				continue
-			}
-			if tv, ok := info.Types[lit]; !ok || !types.Identical(tv.Type, whereT) {
-				continue
-			}
-			c.Touch(f)
-			if re.IsExempt(rootFunc(f).Name()) {
-				continue
-			}
-			exprs := compositeField(lit, "Exprs")
-			facts, live := p.Guards(f, nil).At(call.Pos())
-			desc := "AddClause(Where{" + exprShort(exprs) + "})"
-			if !live {
-				re.Unknown(f.Name(), desc, call.Pos(), "site not live")
-				continue
-			}
-			okGuard, why := whereGuarded(info, exprs, facts)
-			re.Check(okGuard, f.Name(), desc, call.Pos(), why, "a WHERE clause is added without a dominating non-emptiness / non-zero test of what it is built from: an empty condition would count as a condition",
-				"facts: "+strings.Join(facts.List(), ", "))
-		}
-	}
-	// BuildCondition returns
-	bc := p.MethodDecl(pkgGorm, "Statement", "BuildCondition")
-	c.Touch(bc)
-	{
-		info := bc.Pkg.TypesInfo
-		gs := p.Guards(bc, nil)
-		q := paramName(bc, 0)
-		ast.Inspect(bc.Body, func(n ast.Node) bool {
-			if _, ok := n.(*ast.FuncLit); ok {
-				return false
-			}
-			rs, ok := n.(*ast.ReturnStmt)
-			if !ok || len(rs.Results) != 1 {
-				return true
-			}
-			if isNilIdent(info, rs.Results[0]) {
-				return true
-			}
-			facts, live := gs.At(rs.Pos())
-			if !live {
-				return true
-			}
-			lit, isLit := unparen(rs.Results[0]).(*ast.CompositeLit)
-			desc := "return " + exprShort(rs.Results[0])
-			if !isLit {
-				re.Bad(bc.Name(), desc, rs.Pos(), "BuildCondition returns a non-literal, non-nil value; rule cannot see that it is non-empty only for non-empty input")
-				return true
-			}
-			okg, why := false, ""
-			for _, el := range lit.Elts {
-				// element built from conds... -> need len(conds) > 0
-				if ce, ok := unparen(el).(*ast.CallExpr); ok && ce.Ellipsis.IsValid() && len(ce.Args) > 0 {
-					v := canon(info, ce.Args[len(ce.Args)-1])
-					if facts.Has(fFalse("len(" + v + ") == 0")) {
-						okg, why = true, "len("+v+") > 0"
-					}
-				}
-				// element built from the query string -> need a dominating non-empty-string decision
-				if cl, ok := unparen(el).(*ast.CompositeLit); ok {
-					for f := range facts {
-						if strings.HasPrefix(f, "F:") && strings.Contains(f, ` == ""`) {
-							okg, why = true, "string form: "+f
-						}
-					}
-					_ = cl
-				}
-			}
-			_ = q
-			re.Check(okg, bc.Name(), desc, rs.Pos(), why, "BuildCondition returns a non-empty condition list on a path where neither len(conds) > 0 nor a non-empty query string was established", "facts: "+strings.Join(facts.List(), ", "))
-			return true
-		})
-	}
+	checkEmptyForms(c, c.Rule("C09.empty", "every WHERE clause added from user conditions or model keys is guarded by non-emptiness / non-zero key; BuildCondition yields nothing for empty input", 14))
 
 	// ---- C09.marker ----
 	rm := c.Rule("C09.marker", "PAIR(soft-delete filter added, marker stored) in the soft-delete query modifier", 2)
@@ -456,4 +369,97 @@ func checkSoftDeletePair(p *Program, r *Rule, sdq *FuncSrc) {
 	if nFilter == 0 {
 		r.Bad(sdq.Name(), "filter", sdq.Body.Pos(), "soft-delete query modifier adds no WHERE filter")
 	}
+}
+
+// checkEmptyForms: empty condition forms add no clause (shared by C09.empty and C02.empty).
+func checkEmptyForms(c *Ctx, re *Rule) {
+	p := c.P
+	re.Exempt("gorm.(*DB).Clauses", "passes only clause.Expression values; BuildCondition keeps every non-nil one, and an explicit empty clause.Where from the caller is the caller's statement")
+	re.Exempt("gorm.(SoftDeleteQueryClause).ModifyStatement", "the soft-delete filter is a one-element literal by construction; it is excluded from the guard's count through the marker (C09.marker)")
+	stmtT := p.Named(pkgGorm, "Statement")
+	addClause := p.Method(stmtT, "AddClause")
+	whereT := p.Named(pkgClause, "Where")
+	for _, f := range p.FuncsOf(pkgGorm, pkgCallbacks) {
+		info := f.Pkg.TypesInfo
+		for _, call := range callsIn(f) {
+			fn, _ := typeutil.Callee(info, call).(*types.Func)
+			if fn != addClause || len(call.Args) != 1 {
+				continue
+			}
+			lit, ok := unparen(call.Args[0]).(*ast.CompositeLit)
+			if !ok {
+				continue
+			}
+			if tv, ok := info.Types[lit]; !ok || !types.Identical(tv.Type, whereT) {
+				continue
+			}
+			c.Touch(f)
+			if re.IsExempt(rootFunc(f).Name()) {
+				continue
+			}
+			exprs := compositeField(lit, "Exprs")
+			facts, live := p.Guards(f, nil).At(call.Pos())
+			desc := "AddClause(Where{" + exprShort(exprs) + "})"
+			if !live {
+				re.Unknown(f.Name(), desc, call.Pos(), "site not live")
+				continue
+			}
+			okGuard, why := whereGuarded(info, exprs, facts)
+			re.Check(okGuard, f.Name(), desc, call.Pos(), why, "a WHERE clause is added without a dominating non-emptiness / non-zero test of what it is built from: an empty condition would count as a condition",
+				"facts: "+strings.Join(facts.List(), ", "))
+		}
+	}
+	// BuildCondition returns
+	bc := p.MethodDecl(pkgGorm, "Statement", "BuildCondition")
+	c.Touch(bc)
+	{
+		info := bc.Pkg.TypesInfo
+		gs := p.Guards(bc, nil)
+		q := paramName(bc, 0)
+		ast.Inspect(bc.Body, func(n ast.Node) bool {
+			if _, ok := n.(*ast.FuncLit); ok {
+				return false
+			}
+			rs, ok := n.(*ast.ReturnStmt)
+			if !ok || len(rs.Results) != 1 {
+				return true
+			}
+			if isNilIdent(info, rs.Results[0]) {
+				return true
+			}
+			facts, live := gs.At(rs.Pos())
+			if !live {
+				return true
+			}
+			lit, isLit := unparen(rs.Results[0]).(*ast.CompositeLit)
+			desc := "return " + exprShort(rs.Results[0])
+			if !isLit {
+				re.Bad(bc.Name(), desc, rs.Pos(), "BuildCondition returns a non-literal, non-nil value; rule cannot see that it is non-empty only for non-empty input")
+				return true
+			}
+			okg, why := false, ""
+			for _, el := range lit.Elts {
+				// element built from conds... -> need len(conds) > 0
+				if ce, ok := unparen(el).(*ast.CallExpr); ok && ce.Ellipsis.IsValid() && len(ce.Args) > 0 {
+					v := canon(info, ce.Args[len(ce.Args)-1])
+					if facts.Has(fFalse("len(" + v + ") == 0")) {
+						okg, why = true, "len("+v+") > 0"
+					}
+				}
+				// element built from the query string -> need a dominating non-empty-string decision
+				if cl, ok := unparen(el).(*ast.CompositeLit); ok {
+					for f := range facts {
+						if strings.HasPrefix(f, "F:") && strings.Contains(f, ` == ""`) {
+							okg, why = true, "string form: "+f
+						}
+					}
+					_ = cl
+				}
+			}
+			_ = q
+			re.Check(okg, bc.Name(), desc, rs.Pos(), why, "BuildCondition returns a non-empty condition list on a path where neither len(conds) > 0 nor a non-empty query string was established", "facts: "+strings.Join(facts.List(), ", "))
+			return true
+		})
+	}
+
 }
